@@ -341,7 +341,7 @@ def run(ctx):
     ctx.assumptions = ["lestrrat strftime / pbnjay strptime / time.Parse modelled for the numeric codes only", "tzdata content trusted as data (regenerated)"]
     zones, wlo, whi = gen_zones(ctx)
     forbidden_gate(ctx, ["Base", "C16"])
-    ok, why = check_props(ctx, "C16/Props.v", ["C16/Harness.vo", "C16/Proofs.vo"])
+    ok, why = check_props(ctx, "C16/Props.v", ["C16/Harness.vo", "C16/Proofs.vo", "C16/VerbProofs.vo"])
     terms, meta = [], []
     oracle_bad = []
 
@@ -536,6 +536,10 @@ def run(ctx):
         seen.add(b["class"])
         ctx.violation(b)
     ctx.cov["oracle_disagreements"] = len(oracle_bad)
+    hist = {}
+    for b in oracle_bad:
+        hist.setdefault(b["class"], []).append({k: b[k] for k in ("input", "observed", "expected") if k in b})
+    ctx.cov["oracle_disagreement_classes"] = {k: {"count": len(v), "examples": v[:6]} for k, v in hist.items()}
 
 
 def zone_cases(ctx, zones, wlo, whi, pts, case, bad):
